@@ -1,7 +1,9 @@
 package worker
 
 import (
+	"encoding/json"
 	"fmt"
+	"os"
 	"strings"
 
 	"vsim/plan"
@@ -215,6 +217,16 @@ func genC12(p *plan.Plan, r *plan.Rng, tier string) {
 			if r.Chance(1, 2) {
 				st.Probe = "mutate_output"
 			}
+			if r.Chance(1, 5) {
+				// the same tiny value twice, the first result overwritten
+				tv := int64(r.Intn(12))
+				st = plan.Step{Op: "marshal", T: "Iface", V: tv, Opts: []string{"tiny"}, Probe: "mutate_output"}
+				p.Sessions = append(p.Sessions, one(id("e"), st))
+				st.Probe = ""
+				if r.Bool() {
+					st.Op = "marshal_noescape"
+				}
+			}
 			p.Sessions = append(p.Sessions, one(id("e"), st))
 		case k < 18:
 			// a long-lived decoder: many values over refills and doublings
@@ -293,10 +305,13 @@ func asTasks(p *plan.Plan, r *plan.Rng) {
 	default: // seams only
 		p.Sched.Prob = [4]uint32{32768, 0, 0, 0}
 	}
-	// a few explicit site-based change points (PCT-like): the n-th passage of
-	// a class-A site
-	for k := r.Intn(4); k > 0; k-- {
-		p.Sched.Points = append(p.Sched.Points, plan.Point{Site: 1<<24 | uint32(r.Intn(400)), Occ: uint32(r.Range(1, 3)), Task: -1, To: r.Intn(len(p.Sessions))})
+	// explicit site-based change points (PCT-like): the n-th passage of a
+	// class-A site (locks, atomics, pools, mutable package variables) by any
+	// task hands control to a chosen task
+	if sites := classASites(); len(sites) > 0 {
+		for k := r.Intn(7); k > 0; k-- {
+			p.Sched.Points = append(p.Sched.Points, plan.Point{Site: sites[r.Intn(len(sites))], Occ: uint32(r.Range(1, 4)), Task: -1, To: r.Intn(len(p.Sessions))})
+		}
 	}
 }
 
@@ -336,6 +351,9 @@ func genC10(p *plan.Plan, r *plan.Rng, tier string) {
 				}
 			case 7:
 				st = randUtilStep(r)
+				if r.Bool() {
+					st = ptrPrefillStep(r)
+				}
 			default:
 				st = randEncodeStep(r, false)
 				st.T = shared[r.Intn(len(shared))]
@@ -500,12 +518,27 @@ func genC14(p *plan.Plan, r *plan.Rng, tier string) {
 	p.Note = "concurrent first use of neighbouring generated types and reflect types under the scheduler; identity assertion armed"
 	n := r.Range(2, 8)
 	base := r.Intn(len(genTypes) - 16)
+	// flavour: every third plan works on two or three reflect-created types only
+	// (fallback-map path of both caches: front caches, copy-on-write publication)
+	var onlyReflect []string
+	if i%3 == 0 {
+		for k := r.Range(2, 3); k > 0; k-- {
+			onlyReflect = append(onlyReflect, reflectTypeNames[r.Intn(len(reflectTypeNames))])
+		}
+	}
 	for t := 0; t < n; t++ {
 		s := plan.Session{ID: fmt.Sprintf("t%d", t)}
 		for k := r.Range(2, 6); k > 0; k-- {
 			ty := fmt.Sprintf("G%04d", base+r.Intn(12))
 			if r.Chance(1, 3) {
 				ty = reflectTypeNames[r.Intn(len(reflectTypeNames))]
+			}
+			if onlyReflect != nil {
+				ty = onlyReflect[r.Intn(len(onlyReflect))]
+			}
+			if i%3 == 1 && r.Chance(1, 2) {
+				s.Steps = append(s.Steps, ptrPrefillStep(r))
+				continue
 			}
 			if r.Chance(1, 3) && !strings.HasPrefix(ty, "R") {
 				// the same query text on different types (every generated type has a field F0)
@@ -523,4 +556,46 @@ func genC14(p *plan.Plan, r *plan.Rng, tier string) {
 		p.Sessions = append(p.Sessions, s)
 	}
 	asTasks(p, r)
+}
+
+var classACache []uint32
+var classALoaded bool
+
+// classASites reads the yield-site table the instrumenter wrote for this build
+// (path in VERIF_SITES); empty for builds without inserted yields.
+func classASites() []uint32 {
+	if classALoaded {
+		return classACache
+	}
+	classALoaded = true
+	path := os.Getenv("VERIF_SITES")
+	if path == "" {
+		return nil
+	}
+	data, err := os.ReadFile(path)
+	if err != nil {
+		return nil
+	}
+	var sites []struct {
+		ID    uint32 `json:"id"`
+		Class int    `json:"class"`
+	}
+	if json.Unmarshal(data, &sites) != nil {
+		return nil
+	}
+	for _, s := range sites {
+		if s.Class == 1 {
+			classACache = append(classACache, s.ID)
+		}
+	}
+	return classACache
+}
+
+var ptrPreDocs = []string{`{"A":7,"B":"x","C":true}`, `12`, `{"l1":5,"l2":"y","l3":[1],"l4":0.5}`, `[4,5,6]`, `{"a":2,"b":3}`, `"str"`, `{"x":9,"y":"z","z":null}`, `2.5`, `{"name":"n","f":1.5}`, `{"A":1,"B":2,"I":9}`}
+
+// ptrPrefillStep: Unmarshal into an interface{} that holds a non-nil pointer of
+// one of ten types (the document fits the pointed-to type).
+func ptrPrefillStep(r *plan.Rng) plan.Step {
+	k := r.Intn(len(ptrPreDocs))
+	return plan.Step{Op: "unmarshal", T: "Iface", V: int64(k), Doc: []byte(ptrPreDocs[k]), Opts: []string{"prefill_ptr"}}
 }
